@@ -5,16 +5,20 @@
 
      Server.ServeHTTP (top-level recover, fallback DefaultErrorFunc)        server.go
        request_id, limits                (transparent for the response)
-       log        (ResponseRecorder, fallback ErrorFunc at >= 400)          log/log.go
+       log        (ResponseRecorder, recover -> 500, fallback ErrorFunc at >= 400) log/log.go
        rewrite                           (changes the path the inner directives see)
-       gzip       (ResponseFilterWriter/gzipResponseWriter, DefaultErrorFunc on the RAW
-                   writer at >= 400, deferred Close of the pooled gzip.Writer) gzip/gzip.go
-       header     (deferred deletes, WriteHeader de-duplicated)             header/header.go
-       errors     (error pages, `visible` debug branch, recover)            errors/errors.go
+       gzip       (ResponseFilterWriter/gzipResponseWriter, header before Flush,
+                   DefaultErrorFunc on the RAW writer at >= 400, deferred Close of the
+                   pooled gzip.Writer)                                       gzip/gzip.go
+       header     (deferred deletes, WriteHeader de-duplicated, header before Flush)
+                                                                             header/header.go
+       errors     (error pages, `visible` debug branch at >= 400, recover)  errors/errors.go
        status     (short-circuits the inner handlers)                       status/status.go
        mime                              (transparent: sets a header)
-       templates  (ResponseBuffer, `code >= 300 || err` early return,
-                   http.ServeContent with the buffered status)     templates/templates.go
+       templates  (ResponseBuffer: header before Flush, no Flush while buffering;
+                   `code >= 300 || err` early return that passes a buffered response on
+                   unless code >= 400; http.ServeContent with the buffered status)
+                                                                     templates/templates.go
        innermost handler = script over {Header().Set, WriteHeader, Write, Flush, panic}
                            followed by `return status, err`.
 
@@ -244,8 +248,7 @@ Definition g_wr (b : bytes) (x : st) : out :=
             Done (set_gz x3 (gz_on x3) (gz_fw x3) (gz_comp x3) (gz_wrote x3) true true (gz_pend x3 ++ b))))
       else c_wr (Raw b) x1)
   else c_wr (Raw b) x.
-(* ResponseFilterWriter.Flush: the header goes out through the filters first. The wrappers
-   above (templates' ResponseBuffer, header's wrapper) only forward Flush. *)
+(* ResponseFilterWriter.Flush: the header goes out through the filters first. *)
 Definition g_fl (x : st) : out :=
   if gz_on x then bnd (if gz_fw x then Done x else g_wh 200 x) c_fl else c_fl x.
 (* deferred putWriter: Close of a writer that was handed out *)
@@ -263,6 +266,10 @@ Definition h_wh (s : Z) (x : st) : out :=
   else g_wh s x.
 Definition h_wr (b : bytes) (x : st) : out :=
   if h_on x then bnd (if h_wrote x then Done x else h_wh 200 x) (g_wr b) else g_wr b x.
+
+(* responseWriterWrapper.Flush: the header (with the deferred deletes) first *)
+Definition h_fl (x : st) : out :=
+  if h_on x then bnd (if h_wrote x then Done x else h_wh 200 x) g_fl else g_fl x.
 
 (* ---------- level 4: templates' ResponseBuffer ---------- *)
 Definition b_active (x : st) : bool := match b_mode x with TOff => false | _ => true end.
@@ -290,6 +297,14 @@ Definition b_sethdr (k v : bytes) (x : st) : st :=
   if b_active x then set_b x (b_mode x) (b_wrote x) (b_stream x) (b_status x) (hset (b_hdr x) k v) (b_buf x)
   else set_chdr x (hset (chdr x) k v).
 
+(* ResponseBuffer.Flush: the header first (which decides about buffering); nothing is sent
+   while the response is being buffered *)
+Definition b_fl (x : st) : out :=
+  if b_active x then
+    bnd (if b_wrote x then Done x else b_wh 200 x)
+        (fun x1 => if b_stream x1 then h_fl x1 else Done x1)
+  else h_fl x.
+
 (* ---------- the innermost handler ---------- *)
 Inductive op := OSet (k v : bytes) | OWh (s : Z) | OWr (b : bytes) | OFl | OPanic.
 
@@ -298,7 +313,7 @@ Definition step (o : op) (x : st) : out :=
   | OSet k v => Done (b_sethdr k v x)
   | OWh s => b_wh s x
   | OWr b => b_wr b x
-  | OFl => g_fl x
+  | OFl => b_fl x
   | OPanic => Pan x
   end.
 Fixpoint run_script (ops : list op) (x : st) : out :=
@@ -306,6 +321,12 @@ Fixpoint run_script (ops : list op) (x : st) : out :=
   | [] => Done x
   | o :: r => bnd (step o x) (run_script r)
   end.
+
+(* the body part of the scripts the theorems speak about: Writes and Flushes *)
+Inductive wop := WWr (b : bytes) | WFl.
+Definition wop_op (w : wop) : op := match w with WWr b => OWr b | WFl => OFl end.
+Definition wop_bytes (w : wop) : bytes := match w with WWr b => b | WFl => [] end.
+Definition wbody (ws : list wop) : bytes := concat (map wop_bytes ws).
 
 (* result of a Handler.ServeHTTP call *)
 Inductive hres := HRet (s : Z) (e : bool) (x : st) | HPan (x : st).
@@ -315,14 +336,22 @@ Definition probe (ops : list op) (ret : Z) (err : bool) (x : st) : hres :=
   match run_script ops x with Done y => HRet ret err y | Pan y => HPan y end.
 
 (* ---------- templates ---------- *)
-Definition templates_mw (m : tmode) (inner : st -> hres) (x : st) : hres :=
-  match m with
-  | TOff => inner x
-  | _ =>
+(* ResponseBuffer.WriteBuffered: header fields, status and body as the handler wrote them *)
+Definition b_write_buffered (y : st) : out :=
+  if b_wrote y && negb (b_stream y) then
+    bnd (h_wh (b_status y) (set_chdr y (hcopy (b_hdr y) (chdr y))))
+        (fun z => match b_buf y with [] => Done z | _ => h_wr (b_buf y) z end)
+  else Done y.
+Definition templates_on (m : tmode) (inner : st -> hres) (x : st) : hres :=
     match inner (set_b x m false false 200 [] []) with
     | HPan y => HPan y
     | HRet code e y =>
-        if b_stream y || (300 <=? code) || e then HRet code e y
+        if b_stream y || (300 <=? code) || e then
+          (* not a template to execute; what was buffered is passed on, unless the status
+             asks for an error response *)
+          if code <? 400 then
+            match b_write_buffered y with Done z => HRet code e z | Pan z => HPan z end
+          else HRet code e y
         else if contains (b_buf y) TPL_OPEN then HRet 500 true y    (* template does not parse *)
         else
           (* CopyHeader, Content-Length, cache headers removed, http.ServeContent through
@@ -336,7 +365,11 @@ Definition templates_mw (m : tmode) (inner : st -> hres) (x : st) : hres :=
           | Done z => HRet 0 false z
           | Pan z => HPan z
           end
-    end
+    end.
+Definition templates_mw (m : tmode) (inner : st -> hres) (x : st) : hres :=
+  match m with
+  | TOff => inner x
+  | _ => templates_on m inner x
   end.
 
 (* ---------- status ---------- *)
@@ -396,7 +429,9 @@ Definition errors_mw (m : emode) (inner : st -> hres) (x : st) : hres :=
     match inner x with
     | HPan y => recovery m y
     | HRet s e y =>
-        if e && match m with EDebug => true | _ => false end then
+        (* the debug branch writes only where an error response is asked for; below 400
+           the error is logged *)
+        if e && match m with EDebug => true | _ => false end && (400 <=? s) then
           match bnd (h_wh s (set_chdr y (hset (chdr y) K_CT V_TEXT))) (h_wr (errmsg s)) with
           | Done z => HRet 0 true z
           | Pan z => recovery m z
@@ -434,9 +469,16 @@ Definition gzip_mw (active : bool) (inner : st -> hres) (x : st) : hres :=
   else inner x.
 
 (* ---------- log ---------- *)
+(* Logger.serveNext: a panic of the inner handlers is recovered and turned into (500, error),
+   so that the fallback below answers through the recorder and the request is logged *)
+Definition log_next (inner : st -> hres) (x : st) : hres :=
+  match inner x with
+  | HPan y => HRet 500 true y
+  | r => r
+  end.
 Definition log_mw (on : bool) (inner : st -> hres) (x : st) : hres :=
   if on then
-    match inner x with
+    match log_next inner x with
     | HPan y => HPan y
     | HRet s e y =>
         if 400 <=? s then
@@ -595,7 +637,6 @@ Definition spec (errtext : Z -> bytes) (c : cfg) (path : bytes) (ops : list op) 
     else if (400 <=? ret) && (ret <=? 999) then
       (o_status o =? ret) && negb (o_garbled o) && Nat.eqb (o_sup o) 0 &&
       beq (o_view o) (expected_error_body errtext c path ret err)
-    else if (ret <? 200) && err then true   (* contract broken: "already written" (0) with an error, nothing written *)
     else Nat.eqb (o_sup o) 0 && negb (o_garbled o)
   end.
 
